@@ -713,6 +713,48 @@ fn gen_c03(o: &mut Out, r: &mut Rng, d: &GDict, tier: &str) {
         m.avps.push(nest(d, r, depth, Some(inner)));
         o.case(&format!("nest depth={}", depth));
         o.line(&format!("dec {}", hex(&m.encode(&mut Some(r)))));
+        // the same chain through the public single-AVP and group entry points (they start at depth 0 resp. 1)
+        let a = m.avps[0].encode(&mut None);
+        o.line(&format!("deca {}", hex(&a)));
+        o.line(&format!("decg {} {}", a.len(), hex(&a)));
+    }
+    // the public entry points `Avp::decode_from` / `Grouped::decode_from` on a cursor: single AVPs (well formed,
+    // truncated, with a lying length, padding cut off so that the seek runs past the end) and group payloads
+    for _ in 0..(if thorough { 20000 } else { 2500 }) {
+        let a = avp(r, d, 2, 3);
+        let mut f = if r.chance(1, 2) { a.encode(&mut Some(r)) } else { a.encode(&mut None) };
+        match r.below(8) {
+            0 => {
+                let k = r.below(f.len() as u64 + 1) as usize;
+                f.truncate(k);
+            }
+            1 => {
+                // cut inside / right before the padding
+                let hl = if a.vendor.is_some() { 12 } else { 8 };
+                let dl = a.v.data(&mut None).len();
+                f.truncate(hl + dl + r.below(pad(hl + dl) as u64 + 1) as usize);
+            }
+            2 => {
+                if f.len() >= 8 {
+                    let l = get24(&f, 5);
+                    let nl = (l as i64 + r.below(9) as i64 - 4).max(0) as usize;
+                    set24(&mut f, 5, nl);
+                }
+            }
+            3 => f.extend(r.bytes(7)),
+            _ => {}
+        }
+        o.case("entry");
+        o.line(&format!("deca {}", hexd(&f)));
+        if let GV::Grp(ms) = &a.v {
+            let payload: Vec<u8> = ms.iter().flat_map(|m| m.encode(&mut None)).collect();
+            let len = match r.below(4) {
+                0 => payload.len() + 1 + r.below(8) as usize,
+                1 => payload.len().saturating_sub(1 + r.below(8) as usize),
+                _ => payload.len(),
+            };
+            o.line(&format!("decg {} {}", len, hexd(&payload)));
+        }
     }
     // (2) every single-octet substitution of corpus frames
     let n_sub = if thorough { corpus.len() } else { 2 };
